@@ -139,11 +139,35 @@ func runMalformed(w *lib.Writer, r *lib.Rand, tier string) {
 		rqs[i] = Request{ID: i, Src: HB(j.src), WantToks: pick[i], LimitMs: 2000}
 	}
 	res := runAll(rqs, workers)
+	// a third of the inputs once more through the one-byte-per-Read reader: same class, same tokens
+	var slowIdx []int
+	var slowRq []Request
+	for i := range jobs {
+		if i%3 == 0 {
+			slowIdx = append(slowIdx, i)
+			slowRq = append(slowRq, Request{ID: len(slowRq), Src: rqs[i].Src, WantToks: rqs[i].WantToks, Slow: true, LimitMs: 3000})
+		}
+	}
+	slowRes := runAll(slowRq, workers)
+	slowDiff := map[int]string{}
+	for k, i := range slowIdx {
+		if goFailOf(res[i]) == "" && goFailOf(slowRes[k]) == "" {
+			if d := sameObservation(res[i], slowRes[k]); d != "" {
+				slowDiff[i] = d
+			}
+		}
+	}
+	w.Meta.Extra["malformed_also_through_1_byte_reader"] = len(slowIdx)
 	dist := map[string]int{}
 	goOnly := 0
 	for i, j := range jobs {
 		in := In{Kind: "bytes", Src: HB(j.src), Origin: j.origin}
 		dist[j.origin+"/"+loadNames[res[i].Load]]++
+		if d, bad := slowDiff[i]; bad {
+			id := w.NextID()
+			w.Add(lib.Case{Input: in, Observed: observed(res[i]), Class: "malformed/" + j.origin, Nontrivial: true, Coq: "CGoSide false"})
+			w.GoFail(id, "the outcome depends on how the reader delivers the same bytes (bulk vs one byte per Read): "+d)
+		}
 		if pick[i] {
 			if res[i].Load > loadSyntax && res[i].Toks == nil && res[i].LexErr == nil {
 				// the child died or hung before it could scan: no token observation
@@ -430,6 +454,8 @@ func corpus(w *lib.Writer) {
 	for i, t := range texts {
 		addBytes(w, In{Kind: "bytes", Src: HB(t), Origin: "corpus"}, res[i], "corpus", kfBytes([]byte(t), res[i]))
 	}
+	boundaryCases(w)
+	numeralEdgeCases(w)
 	// the fixed defects as layout cases: "return <sep> 1" must be a function with tokens [return; 1]
 	ret, one := name("return"), Lexeme{K: "num", S: HB("1")}
 	for _, sep := range [][]SepItem{
@@ -443,4 +469,123 @@ func corpus(w *lib.Writer) {
 		pp := p
 		addValid(w, In{Kind: "valid", Prog: &pp, RefSrc: HB(ref)}, rs[1], rs[0].Proto == rs[1].Proto && rs[1].Load == loadFunction, "corpus", nil)
 	}
+}
+
+// ---------------- two-byte line ends across the scanner's buffer refills ----------------
+
+// boundaryCases: programs padded by a leading comment so that a CR LF (or LF CR) pair sits exactly
+// on a refill boundary of the scanner's 4096-byte bufio buffer (first byte at offset 4095 / 8191),
+// with the pair at each place where a line end means something: between statements, inside a long
+// string (also as its skipped first line end), after a backslash in a quoted string, at the end of
+// a line comment, inside a block comment. Reference for the bytecode: the LF rendering without
+// padding. Every case is also loaded through the one-byte-per-Read reader.
+func boundaryCases(w *lib.Writer) {
+	x, y := name("x"), name("y")
+	eq := sym('=')
+	one, two := Lexeme{K: "num", S: HB("1")}, Lexeme{K: "num", S: HB("2")}
+	ret := name("return")
+	lf := []SepItem{{K: "nl", NL: "NlLF"}}
+	sp := []SepItem{{K: "blank", C: ' '}}
+	type site struct {
+		name string
+		prog func(pair string) Prog // pair = NlCRLF | NlLFCR (or NlLF for the reference)
+	}
+	tail := func(items []Item) []Item { // two more lines so that later line numbers are observed
+		return append(items, Item{lf, y}, Item{nil, eq}, Item{nil, two}, Item{lf, ret}, Item{sp, x})
+	}
+	sites := []site{
+		{"between-statements", func(p string) Prog {
+			return Prog{Items: tail([]Item{{nil, x}, {nil, eq}, {nil, one}, {[]SepItem{{K: "nl", NL: p}}, x}, {nil, eq}, {nil, two}})}
+		}},
+		{"in-long-string", func(p string) Prog {
+			return Prog{Items: tail([]Item{{nil, x}, {nil, eq}, {nil, Lexeme{K: "long", Lvl: 1, S: HB("a" + nlText[p] + "b")}}})}
+		}},
+		{"first-line-end-of-long-string", func(p string) Prog {
+			return Prog{Items: tail([]Item{{nil, x}, {nil, eq}, {nil, Lexeme{K: "long", Lvl: 0, S: HB(nlText[p] + "b")}}})}
+		}},
+		{"after-backslash-in-string", func(p string) Prog {
+			return Prog{Items: tail([]Item{{nil, x}, {nil, eq}, {nil, Lexeme{K: "str", Q: '"', Items: []SItem{{K: "char", C: 'a'}, {K: "escnl", NL: p}, {K: "char", C: 'b'}}}}})}
+		}},
+		{"end-of-line-comment", func(p string) Prog {
+			return Prog{Items: tail([]Item{{nil, x}, {nil, eq}, {nil, one}, {[]SepItem{{K: "line", Text: HB(" c"), NL: p}}, x}, {nil, eq}, {nil, two}})}
+		}},
+		{"in-block-comment", func(p string) Prog {
+			return Prog{Items: tail([]Item{{nil, x}, {nil, eq}, {nil, one}, {[]SepItem{{K: "block", Lvl: 0, Text: HB("a" + nlText[p] + "b")}}, x}, {nil, eq}, {nil, two}})}
+		}},
+	}
+	var jobs []validJob
+	var srcs [][]byte
+	for _, st := range sites {
+		for _, pair := range []string{"NlCRLF", "NlLFCR"} {
+			for _, target := range []int{4095, 8191} {
+				p := st.prog(pair)
+				at := strings.Index(string(p.bytes()), nlText[pair])
+				pad := target - at - 3 // "--" + pad + "\n" in front moves the pair's first byte to `target`
+				padded := Prog{Items: append([]Item(nil), p.Items...)}
+				padded.Items[0].Sep = append([]SepItem{{K: "line", Text: HB(strings.Repeat("p", pad)), NL: "NlLF"}}, padded.Items[0].Sep...)
+				if b := padded.bytes(); string(b[target:target+2]) != nlText[pair] {
+					panic("boundaryCases: pair not at the boundary")
+				}
+				ref := st.prog("NlLF")
+				// the reference goes first (index = its own), then the padded layout twice (bulk / one-byte observation)
+				ri := len(jobs)
+				rp := ref
+				jobs = append(jobs, validJob{In{Kind: "valid", Prog: &rp, RefSrc: HB(ref.bytes())}, "boundary/reference-LF", ri, false})
+				srcs = append(srcs, ref.bytes())
+				pp := padded
+				jobs = append(jobs, validJob{In{Kind: "valid", Prog: &pp, RefSrc: HB(ref.bytes())},
+					fmt.Sprintf("boundary/%s/%s@%d", st.name, pair, target), ri, false})
+				srcs = append(srcs, padded.bytes())
+			}
+		}
+	}
+	runValidJobs(w, jobs, srcs)
+}
+
+// numeralEdgeCases: a numeral directly followed (no blank) by an operator or a comment, against the
+// same lexemes separated by blanks: hexadecimal numerals ending in e/E before + - and "--", numerals
+// with an exponent before "..", "-" and "+".
+func numeralEdgeCases(w *lib.Writer) {
+	num := func(s string) Lexeme { return Lexeme{K: "num", S: HB(s)} }
+	str := Lexeme{K: "str", Q: '\'', Items: nil}
+	ret := name("return")
+	var progs [][]Lexeme
+	for _, n := range []string{"0xe", "0xE", "0xfe", "0XAE", "0x1e", "1e2", "1E2", "2.5e1", "7E-1", ".5e1", "0x10", "5"} {
+		for _, op := range []int{'+', '-', m2Comma, '*', mEqeq} {
+			if op == m2Comma {
+				progs = append(progs, []Lexeme{ret, num(n), sym(op), str})
+			} else {
+				progs = append(progs, []Lexeme{ret, num(n), sym(op), num("1")})
+			}
+		}
+		progs = append(progs, []Lexeme{ret, sym('{'), num(n), sym('-'), num("0xe"), sym('}')})
+	}
+	var jobs []validJob
+	var srcs [][]byte
+	add := func(p Prog, class string, ref int, refSrc []byte) {
+		pp := p
+		jobs = append(jobs, validJob{In{Kind: "valid", Prog: &pp, RefSrc: HB(refSrc)}, class, ref, false})
+		srcs = append(srcs, p.bytes())
+	}
+	r := lib.NewRand(8)
+	for _, toks := range progs {
+		spaced := Prog{}
+		for i, l := range toks {
+			var sep []SepItem
+			if i > 0 {
+				sep = []SepItem{{K: "blank", C: ' '}}
+			}
+			spaced.Items = append(spaced.Items, Item{sep, l})
+		}
+		ri := len(jobs)
+		add(spaced, "numeral-edge/blanks", ri, spaced.bytes())
+		add(layout(r, toks, styleCompact), "numeral-edge/no-blank", ri, spaced.bytes())
+		// a comment glued to the numeral: 0xfe--[[c]]-1
+		glued := Prog{Items: append([]Item(nil), layout(r, toks, styleCompact).Items...)}
+		if !(toks[1].K == "sym") && noMerge(toks[1], '-') {
+			glued.Items[2].Sep = append([]SepItem{{K: "block", Lvl: 0, Text: HB("c")}}, glued.Items[2].Sep...)
+			add(glued, "numeral-edge/comment-glued", ri, spaced.bytes())
+		}
+	}
+	runValidJobs(w, jobs, srcs)
 }
